@@ -353,7 +353,7 @@ def explore(ctx, res, tier, acc):
             obs = [r.split("\t")[2] for r in outl] if rc == 0 else []
             v2 = oracle(small, obs, fam) if obs else None
             res.report("bcast:" + sig, {"engine": "bcast", "kind": "impl-violates", "script": name, "ops": small, "observed": obs,
-                                         "oracle": (v2 or v)[1]})
+                                         "oracle": v2[1] if (v2 and v2[0] == sig) else why})
             continue
         if model is not None:
             if model != impl:
